@@ -845,6 +845,12 @@ func (fx *Fx) applyCall(st *State, fn *types.Func, recv *Val, args []Val, call *
 		env := &SpecEnv{fx: fx, st: st, old: pre, bound: bound, pos: specPos, pkg: calleePkg}
 		st.assume(fx.specBool(env, e.Expr))
 	}
+	if sp.Flags["countcalls"] != "" {
+		// per-activation ghost counter of the direct calls of this callee
+		nrt := st.heap("NRT", "(Array Int Int)")
+		id := c.codeId(key)
+		st.setHeap("NRT", "(Array Int Int)", fmt.Sprintf("(store %s %d (+ (select %s %d) 1))", nrt, 2*id, nrt, 2*id))
+	}
 	if sp.Flags["countresult"] != "" && len(out) > 0 && out[0].S == "Bool" {
 		// per-activation ghost counters of the direct calls of this callee: [2*code] calls, [2*code+1] calls that returned true
 		nrt := st.heap("NRT", "(Array Int Int)")
